@@ -299,16 +299,22 @@ func (s *redisServer) execSet(w *bufio.Writer, args [][]byte) error {
 			}
 			switch opt {
 			case "EX":
-				now := time.Now()
-				expireAt = uint64(now.Add(time.Duration(num) * time.Second).Unix())
-				if expireAt <= uint64(now.Unix()) {
-					expireAt = uint64(now.Add(time.Second).Unix())
+				// Seconds are added to the clock as integers: a time.Duration holds only
+				// about 292 years and would wrap for larger, still valid, expiries.
+				now := time.Now().Unix()
+				if num > math.MaxInt64-now {
+					return s.respondError(w, "invalid expire time in set")
 				}
+				expireAt = uint64(now + num)
 			case "PX":
 				now := time.Now()
-				expireAt = uint64(now.Add(time.Duration(num) * time.Millisecond).Unix())
+				nowMs := now.UnixMilli()
+				if num > math.MaxInt64-nowMs {
+					return s.respondError(w, "invalid expire time in set")
+				}
+				expireAt = uint64((nowMs + num) / 1000)
 				if expireAt <= uint64(now.Unix()) {
-					expireAt = uint64(now.Add(time.Second).Unix())
+					expireAt = uint64(now.Unix()) + 1
 				}
 			case "EXAT":
 				expireAt = uint64(num)
